@@ -33,24 +33,14 @@ fn base64_table_is_rfc4648() {
     assert!(BASE64_TABLE.len() == 64);
 }
 
-/// two_entry_table()[i*64+j] = (c_i << 8 | c_j, i << 6 | j); keys pairwise distinct; the default
-/// key is the one whose value is 0.
+// two_entry_table() is NOT under contract: it builds a 4096-element Vec with vec![..; 4096] and a
+// 64x64 iterator loop; CBMC did not finish symbolic execution of the function alone in 50 minutes
+// (measured in this sandbox), and Verus cannot ingest `.iter().enumerate()` loops. It is reported as
+// uncovered. two_entry_default is checked against the alphabet constant only.
 #[kani::proof]
-#[kani::unwind(66)]
-fn base64_two_entry_table_spec() {
-    let t = two_entry_table();
-    assert!(t.len() == 4096);
-    let i: usize = kani::any();
-    let j: usize = kani::any();
-    kani::assume(i < 64 && j < 64);
-    let (k, v) = t[i * 64 + j];
-    assert!(k == ((rfc4648_char(i as u8) as u16) << 8) | rfc4648_char(j as u8) as u16);
-    assert!(v == ((i as u16) << 6) | j as u16);
-    let i2: usize = kani::any();
-    let j2: usize = kani::any();
-    kani::assume(i2 < 64 && j2 < 64 && (i2 != i || j2 != j));
-    assert!(t[i2 * 64 + j2].0 != k);
-    assert!(t[i2 * 64 + j2].1 != v);
-    // default element: the key whose decoded value is 0
-    assert!(two_entry_default() == t[0].0 as u64 && t[0].1 == 0);
+fn base64_two_entry_default_spec() {
+    // default key = (char of value 0) << 8 | (char of value 0)
+    let c0 = BASE64_TABLE[0].0 as u64;
+    assert!(BASE64_TABLE[0].1 == 0);
+    assert!(two_entry_default() == (c0 << 8) | c0);
 }
